@@ -1694,3 +1694,41 @@ Proof.
       apply bit_pack. apply (words_for_idx i (length bs) Hi). }
   split; [exact E|]. split; [rewrite pack_go_eq; exact E|apply pack_length].
 Qed.
+
+(* ------------------------------------------------------------------ *)
+(* levels must not wrap                                                *)
+
+Lemma assign_levels_loop_w_id : forall gs levels mx,
+  assign_levels_loop_w (fun l => l) gs levels mx = assign_levels_loop gs levels mx.
+Proof.
+  induction gs as [|g t IH]; intros levels mx; [reflexivity|].
+  cbn [assign_levels_loop_w assign_levels_loop]. rewrite IH. reflexivity.
+Qed.
+
+(* Regression record: wire 0 is the output of an AND chain of depth 65535
+   (every level up to 65535 is stored exactly, also modulo 2^16); gate 0 is
+   one more AND (level 65535, its output has AND depth 65536), gate 1 consumes
+   it.  With the per-wire level stored modulo 2^16 the consumer gets level 0,
+   below its producer's, so the level-wise schedule evaluates it 65535 rounds
+   before its operand exists; with unbounded levels it gets 65536. *)
+Definition wrap_witness : list gate := [ mkGate 0 0 1 AND; mkGate 1 1 2 XOR ].
+
+Lemma wrap_witness_levels wrap d :
+  fst (fst (assign_levels_loop_w wrap wrap_witness [d; 0; 0] 0)) = [d; wrap (S d)].
+Proof. cbn. rewrite !Nat.max_id. reflexivity. Qed.
+
+Lemma level_wrap16_refuted :
+  let d := N.to_nat 65535 in
+  fst (fst (assign_levels_loop_w wrap16 wrap_witness [d; 0; 0] 0)) = [d; 0] /\
+  fst (fst (assign_levels_loop wrap_witness [d; 0; 0] 0)) = [d; S d] /\
+  ~ gate_deps_ok 0 [(mkGate 0 0 1 AND, d)] (mkGate 1 1 2 XOR) 0.
+Proof.
+  intro d. split; [|split].
+  - rewrite wrap_witness_levels.
+    assert (E : wrap16 (S d) = 0) by (unfold wrap16, d; rewrite Nat2N.inj_succ, N2Nat.id; reflexivity).
+    rewrite E. reflexivity.
+  - rewrite <- assign_levels_loop_w_id. apply wrap_witness_levels.
+  - intros [[H|(g & L & Hin & Ho & Hle)] _]; [exact (Nat.nlt_0_r _ H)|].
+    destruct Hin as [Hin|[]]. inversion Hin; subst g L.
+    change (S d <= 0) in Hle. exact (Nat.nle_succ_0 _ Hle).
+Qed.
